@@ -678,5 +678,5 @@ LEVEL_TEXT = ("Machine-checked Coq theorems, for EVERY well-formed tz table and 
               "are modelled faithfully with _refuted witnesses, the exact fold-0 reading, and _partial theorems on the region where the loss does not show.")
 DESIGN_REF = "DESIGN.md section 4 C02, section 3.2"
 LEVEL_NOTE = ("history-* streams are inside the Coq model (dispatch entry hist = WallHistory.run_history, compared step by step with the implementation). Trusted: Coq kernel+VM; Spec/Zone.v as a model of zoneinfo (validated against zoneinfo at every probe); the hand model Model/TzConvert.v of tz/timezone.py and "
-              "DateTime.create (validated by correspondence); wf/wf2 of real tables is evaluated, not proved; extraction+driver cross-checked with vm_compute.")
+              "DateTime.create (validated by correspondence); wf2 of every shipped table is proved by kernel computation on the data itself (Gen/ZoneTables.v, regenerated from the staged interpreter's zoneinfo on every run: 599 names, 441 distinct tables, 43240 transitions, POSIX rules expanded to 2100; theorem shipped_zones_wellformed) and the construction theorems are restated for the concrete zones (shipped_zone_*); the harness still evaluates wf2 on every window it feeds the model (rule years beyond 2100); extraction+driver cross-checked with vm_compute.")
 TECHNIQUE = "Coq proof by induction over transition tables (lia) + differential correspondence at every tz transition"
